@@ -40,6 +40,10 @@ impl Scenario {
             Scenario::C20(_) => "C20",
         }
     }
+    /// Does this scenario ask for one-shot references computed in a brand-new process?
+    pub fn needs_fresh_reference(&self) -> bool {
+        matches!(self, Scenario::C19(_))
+    }
     pub fn run(&self, stats: &mut RunStats) -> Option<Violation> {
         match self {
             Scenario::C05(s) => crate::c05::run(s, stats),
